@@ -38,7 +38,10 @@ func TestVerifReload(t *testing.T) {
 		t.Fatal(err)
 	}
 	sets := concrete.DefaultSets()
-	cfgs := map[string]rlCfg{"A": {"A", 1, []uint{1, 2}}, "B": {"B", 2, []uint{2, 3}}, "C": {"A", 2, []uint{1, 2, 3}}, "D": {"noadmin", 1, []uint{1}}}
+	cfgs := map[string]rlCfg{"A": {"A", 1, []uint{1, 2}}, "B": {"B", 2, []uint{2, 3}}, "C": {"A", 2, []uint{1, 2, 3}}, "D": {"noadmin", 1, []uint{1}},
+		"E": {"A", 1, []uint{1, 3}}, // same directory as A/C, but the only administrator's parameter set (2) is gone: fails the check
+		"F": {"B", 3, []uint{3}},    // the same for B's directory
+		"G": {"stray", 1, []uint{1, 2}}} // a directory with a valid administrator and a stray file: fails the check
 	rng := rand.New(rand.NewSource(7))
 	var events []map[string]interface{}
 	var emu sync.Mutex
@@ -90,7 +93,8 @@ func TestVerifReload(t *testing.T) {
 			}
 			return d
 		}
-		bases := map[string]string{"A": mkbase("A", true), "B": mkbase("B", true), "noadmin": mkbase("noadmin", false)}
+		bases := map[string]string{"A": mkbase("A", true), "B": mkbase("B", true), "noadmin": mkbase("noadmin", false), "stray": mkbase("stray", true)}
+		os.WriteFile(filepath.Join(bases["stray"], "README.txt"), []byte("hello\n"), 0600)
 		cfgfile := filepath.Join(root, "store.yaml")
 		write := func(kind string) {
 			switch kind {
